@@ -7,7 +7,8 @@ eng, seed, cases = sys.argv[1], sys.argv[2], sys.argv[3]
 hb = sys.argv[4] if len(sys.argv) > 4 else '/verif/.cache/target/debug/amharness'
 impl = subprocess.run([hb,'run',eng,'--seed',seed,'--cases',cases],stdout=subprocess.PIPE,text=True).stdout
 open('/tmp/impl.txt','w').write(impl)
-model = subprocess.run(['/verif/lean/.lake/build/bin/amdriver'],input=impl,stdout=subprocess.PIPE,text=True).stdout
+import os
+model = subprocess.run([os.environ.get("VERIF_LEAN","/verif/lean")+"/.lake/build/bin/amdriver"],input=impl,stdout=subprocess.PIPE,text=True).stdout
 open('/tmp/model.txt','w').write(model)
 ic,st=m.parse_trace(impl); mc,_=m.parse_trace(model)
 dis,orc,n=m.compare('X',ic,mc,{})
